@@ -113,6 +113,9 @@ def execute(sc):
     base_evals = None
     prev_mark = None
     for i, call in enumerate(calls):
+        if call["atol"] != sc["atol"] or call["rtol"] != sc["rtol"]:
+            viol.append({"inv": "ERR-tolerances", "msg": f"attempt {i}: the estimator was called with atol={call['atol']!r}, rtol={call['rtol']!r} but the caller passed atol={sc['atol']!r}, rtol={sc['rtol']!r}"})
+            break
         want, kap, st = documented_error_power(b, model0, sc["error"], call, q, d, order)
         got = call["ep"]
         if not math.isfinite(want) or not math.isfinite(got):
